@@ -981,8 +981,24 @@ func (e *Engine) callEffects(st *State, x *ast.CallExpr, callee *types.Func, bui
 	} else {
 		unknown = true
 	}
+	// what hangs off a local allocation that never leaves the function (x := &T{...}, only ever used as x.f and
+	// x.m(...)) cannot be reached by a call that does not receive x
+	outOfReach := func(f *Fact) bool {
+		if len(f.ObjDeps) == 0 {
+			return false
+		}
+		for _, o := range f.ObjDeps {
+			if !e.P.privateAlloc(o) || e.callMentions(x, o) {
+				return false
+			}
+		}
+		return true
+	}
 	if unknown || (ws != nil && ws.All) {
 		return st.kill(func(_ string, f *Fact) bool {
+			if outOfReach(f) {
+				return false
+			}
 			if f.Heap {
 				return true
 			}
@@ -1003,6 +1019,9 @@ func (e *Engine) callEffects(st *State, x *ast.CallExpr, callee *types.Func, bui
 		return st
 	}
 	return st.kill(func(_ string, f *Fact) bool {
+		if outOfReach(f) {
+			return false
+		}
 		if ws.Index && f.Heap {
 			return true
 		}
@@ -1268,6 +1287,19 @@ func (e *Engine) valueOf(st *State, x ast.Expr) *Fact {
 			return g
 		}
 	}
+	// a package-level variable that is never assigned and is initialised with a fresh non-nil value
+	// (var errFailed = errors.New("..."))
+	if id, ok := x.(*ast.Ident); ok {
+		if g, isVar := objOf(e.Info, id).(*types.Var); isVar && g.Pkg() != nil && g.Parent() == g.Pkg().Scope() && e.P.globalNeverWritten(g) {
+			if init := e.P.globalInitExpr(g); init != nil {
+				if _, again := ast.Unparen(init).(*ast.Ident); !again {
+					if f := e.valueOf(newState(), init); f != nil && f.Nil == 2 {
+						return &Fact{Nil: 2}
+					}
+				}
+			}
+		}
+	}
 	return nil
 }
 
@@ -1337,6 +1369,13 @@ func (e *Engine) aliasTarget(st *State, r ast.Expr) *keyInfo {
 	k := e.canon(st, r)
 	if !k.OK || !e.tracked(k) {
 		return nil
+	}
+	// a local that receives the value of a package-level variable holds a copy: what is known about it must not
+	// die with what is known about the global at the next call
+	for _, o := range k.Objs {
+		if g, ok := o.(*types.Var); ok && !g.IsField() && g.Pkg() != nil && g.Parent() == g.Pkg().Scope() {
+			return nil
+		}
 	}
 	return &k
 }
@@ -1637,6 +1676,40 @@ func (e *Engine) SetLenOfVar(st *State, v types.Object, n int64) *State {
 		return out
 	}
 	return st
+}
+
+// callMentions: the variable (through parameter bindings of helpers interpreted in place) occurs in the call's
+// receiver or arguments.
+func (e *Engine) callMentions(x *ast.CallExpr, o types.Object) bool {
+	found := false
+	check := func(n ast.Node) {
+		ast.Inspect(n, func(m ast.Node) bool {
+			if id, ok := m.(*ast.Ident); ok {
+				if objOf(e.Info, id) == o {
+					found = true
+				} else if r := e.ResolveExpr(id); r != ast.Expr(id) {
+					ast.Inspect(r, func(k ast.Node) bool {
+						if id2, ok := k.(*ast.Ident); ok && objOf(e.Info, id2) == o {
+							found = true
+						}
+						return !found
+					})
+				}
+			}
+			return !found
+		})
+	}
+	check(x.Fun)
+	for _, a := range x.Args {
+		// a string, number or boolean computed from the variable hands nothing of it over
+		if t := e.Info.TypeOf(a); t != nil {
+			if _, basic := t.Underlying().(*types.Basic); basic {
+				continue
+			}
+		}
+		check(a)
+	}
+	return found
 }
 
 // boxedType: the assignment l = r converts a value of a concrete (non-interface) type into an interface variable;
